@@ -104,6 +104,19 @@ def run(ctx):
                 failing, what = True, 'the implementation crashed or hung (%s) where the model answers %s' % (b, a[:80])
             ctx.report({'line': line, 'kind': kind}, b[:600], a[:600], cls='req-mismatch', failing_input=failing, what=what)
             continue
+        if kind == 'cookie':
+            # independent reading of the Cookie header: pairs separated by ';', name and value around the first '=',
+            # both trimmed; a piece without '=' is skipped; no header = no cookies
+            want = []
+            for piece in (g.split(';') if g is not None else []):
+                if '=' in piece:
+                    k_, v_ = piece.split('=', 1)
+                    want.append('%s=%s' % (k_.strip().encode().hex(), v_.strip().encode().hex()))
+            if b != '[' + ','.join(want) + ']':
+                ctx.report({'line': line, 'kind': kind}, b[:300], '[' + ','.join(want)[:300] + ']', cls='req-cookies', failing_input=True,
+                           what='cookies of the request differ from what the Cookie header denotes')
+            elif len(want) >= 2:
+                ctx.mark_nontrivial(line)
         if kind == 'hdr':
             hs, name = g
             allv = [v for k, v in hs if k.lower() == name.lower()]
